@@ -105,7 +105,7 @@ Definition deviation_witnesses : list (N * list N * bool) := [
   (d_tag_forms, s2n "a = #2.<int>", true);
   (d_ctrl_chars, [97; 32; 61; 32; 34; 9; 34], true);
   (d_ctrl_chars, [97; 32; 61; 32; 105; 110; 116; 13; 98; 32; 61; 32; 105; 110; 116], true);
-  (d_escapes, s2n "a = ""\ud800""", true);
+  (d_escapes, s2n "a = #7.<""\ud800"">", true);
   (d_paren_entry, s2n "a = [(a) .size 3]", false)
 ]%string.
 Definition witness_ok (x : N * list N * bool) : bool :=
